@@ -64,7 +64,7 @@ class MethodGen:
         if "uod_short" in self.f:
             opts += [("set1", 2), ("set3", 1), ("valve", 1)]
         if "uod_long" in self.f:
-            opts += [("ramp", 2), ("longa", 1), ("longb", 1), ("longc", 1), ("spin", 1)]
+            opts += [("ramp", 2), ("longa", 1), ("longb", 1), ("longc", 1), ("spin", 1), ("slow", 1)]
         if "wait" in self.f:
             opts += [("wait", 2)]
         if "base" in self.f and depth == 0 and not in_interrupt:
@@ -103,6 +103,8 @@ class MethodGen:
             self.emit(depth, f"{t}LongC: {r.choice([2, 4, 9])}")
         elif k == "spin":
             self.emit(depth, f"{t}Spin")
+        elif k == "slow":
+            self.emit(depth, f"{t}{r.choice(['SlowOpen', 'SlowFull'])}")
         elif k == "wait":
             self.emit(depth, f"{t}Wait: {r.choice([0.2, 0.5, 1, 1.5, 2]) * self.ts:g}s")
         elif k == "base":
